@@ -4,6 +4,7 @@ import (
 	"bytes"
 	"encoding/json"
 	"fmt"
+	"github.com/dgraph-io/badger"
 	"math/rand/v2"
 	"net/url"
 	"os"
@@ -14,6 +15,7 @@ import (
 	"github.com/jirenius/go-res/store"
 	"github.com/jirenius/go-res/store/badgerstore"
 	"github.com/jirenius/keylock"
+	"github.com/jirenius/taskqueue"
 
 	"verif/sim/sched"
 )
@@ -58,7 +60,8 @@ type IdxCase struct {
 	Mutators [][]IdxMut `json:"mutators"`
 	Rounds   []IdxRound `json:"rounds"`
 	Optional []string   `json:"optional"`
-	SubQ     []IdxQuery `json:"subq"` // queries evaluated inside query-change callbacks (C14)
+	SubQ     []IdxQuery `json:"subq"`             // queries evaluated inside query-change callbacks (C14)
+	TQCap    int        `json:"tq_cap,omitempty"` // capacity of the index task queue (0 = the library's 256)
 }
 
 // IndexScenario: index queries equal the reference scan once Flush returned
@@ -82,7 +85,7 @@ func genIdxQuery(r *rand.Rand) IdxQuery {
 
 func (IndexScenario) GenCase(r *rand.Rand, prop string) interface{} {
 	c := &IdxCase{Prefix: pick(r, "", "pre", "pre")}
-	for _, p := range append(append([]string{}, storePoints...), "updateIndex.afterCommit", "rebuild.afterDrop") {
+	for _, p := range append(append([]string{}, storePoints...), "tq.do", "tq.next", "updateIndex.afterCommit", "rebuild.afterDrop") {
 		if chance(r, 60) {
 			c.Optional = append(c.Optional, p)
 		}
@@ -111,6 +114,7 @@ func (IndexScenario) GenCase(r *rand.Rand, prop string) interface{} {
 	for i := 0; i < 3; i++ {
 		c.SubQ = append(c.SubQ, genIdxQuery(r))
 	}
+	c.TQCap = pick(r, 0, 0, 1, 1, 2, 3)
 	return c
 }
 
@@ -314,8 +318,10 @@ func (IndexScenario) Execute(sim *sched.Sim, ci interface{}, prop string, race b
 	defer db.Close()
 	ir.st = badgerstore.NewStore(db).SetPrefix(c.Prefix).SetType(idxRec{})
 	badgerstore.VerifHook = sim.Yield
+	badger.VerifHook = sim.Yield
 	keylock.Hook = sim.Yield
-	defer func() { badgerstore.VerifHook = nil; keylock.Hook = nil }()
+	taskqueue.Hook = sim.Yield
+	defer func() { badgerstore.VerifHook = nil; badger.VerifHook = nil; keylock.Hook = nil; taskqueue.Hook = nil }()
 	// harness's own change log, registered before the query store's handler
 	// so that a mutation is recorded before its index task can run
 	ir.st.OnChange(func(id string, before, after interface{}) {
@@ -335,7 +341,9 @@ func (IndexScenario) Execute(sim *sched.Sim, ci interface{}, prop string, race b
 		}
 		h.mu.Unlock()
 	})
+	badgerstore.VerifTaskCapacity = c.TQCap
 	ir.qs = newIdxQueryStore(ir.st)
+	badgerstore.VerifTaskCapacity = 0
 	ir.qs.OnQueryChange(func(qc store.QueryChange) { ir.onQueryChange(qc) })
 
 	var muts []*sched.Task
